@@ -98,6 +98,15 @@ class Gen:
                 parts.append(r.choice(later))  # a name defined later (or the macro itself): painted blue when recursive
             else:
                 parts.append(self.tok(allp, 1))
+        self.cur_tail = None
+        fn = [m for m in self.allnames if m[1] == "fun" and not self.pasted.get(m[0])]
+        if fn and r.random() < 0.15:
+            # the replacement list ends with the name of a function-like macro (and maybe a parameter that can be empty): the invocation is
+            # completed by the tokens that follow the enclosing macro's expansion (C11 6.10.3.4p1)
+            self.cur_tail = r.choice(fn)
+            parts.append(self.cur_tail[0])
+            if params and r.random() < 0.5:
+                parts.append(r.choice(params))
         return " ".join(parts)
 
     def program(self):
@@ -106,6 +115,7 @@ class Gen:
         names = ["M%d" % i for i in range(nm)]
         lines = []
         self.allnames = []
+        self.tail = {}
         shapes = []
         for i, name in enumerate(names):
             kind = "obj" if r.random() < 0.3 else "fun"
@@ -118,6 +128,8 @@ class Gen:
             self.cur_pasted = set()
             b = self.body(params, var, later)
             self.pasted[name] = sorted(self.cur_pasted)
+            if self.cur_tail is not None:
+                self.tail[name] = self.cur_tail
             # paste operands that are parameters may be empty or multi-token: keep them identifier-ish by construction of the calls below
             if kind == "obj":
                 lines.append("#define %s %s" % (name, b))
@@ -136,6 +148,9 @@ class Gen:
                 lines.append("const char *s%d = STR(%s);" % (i, inv))
             elif k < 0.35:
                 lines.append("%s %s" % (m[0], "(" + ", ".join(["1"] * (len(m[2]) + (1 if m[3] else 0))) + ")"))  # arguments taken from the text that follows
+            elif m[0] in self.tail and r.random() < 0.6:
+                t = self.tail[m[0]]
+                lines.append("%s (%s) ;" % (inv, ", ".join(["1"] * (len(t[2]) + (1 if t[3] else 0)))))  # arguments for the macro name that ends the expansion
             else:
                 lines.append("%s ;" % inv)
             if r.random() < 0.1:
